@@ -111,7 +111,7 @@ fn value(idx: u64, rng: &mut Rng, mon: &mut Mon) {
     mon.seen("pairs", format!("{}->{}", driven, coupled));
     let sname = stack_name(&layers);
     let kin = build(Arc::new(OPWKinematics::new(to_params(&rp))), &layers);
-    let q = joints_uniform(rng, PI);
+    let q = if rng.bool(0.3) { joints_resting(rng, PI) } else { joints_uniform(rng, PI) };
     let reach = rp.reach() + layers.iter().map(|l| match l { Layer::Tool(f) | Layer::Base(f) | Layer::Frame(f) => norm(f.p), _ => 0.0 }).sum::<f64>();
     let ftol = 1e-11 * (1.0 + reach);
     let target = ref_forward(&rp, &layers, &q);
@@ -194,7 +194,7 @@ fn delegation(idx: u64, rng: &mut Rng, mon: &mut Mon) {
     let real: Arc<dyn Kinematics> = Arc::new(OPWKinematics::new_with_constraints(to_params(&rp), rs_opw_kinematics::constraints::Constraints::new([-3.0; 6], [3.0; 6], 0.0)));
     let spy = Arc::new(Spy::new(real.clone()));
     let kin = crate::props::stack::wrap(spy.clone(), &layer);
-    let q = joints_uniform(rng, PI);
+    let q = if rng.bool(0.3) { joints_resting(rng, PI) } else { joints_uniform(rng, PI) };
     let mut q_adj = q;
     q_adj[coupled] -= sc * q[driven];
     let pose = fr_to_iso(&fk(&rp, &q_adj));
